@@ -100,7 +100,7 @@ func (p *proc) waitReady(ctxf func(context.Context) context.Context) bool {
 		p.conn = p.dial()
 	}
 	tc := regattapb.NewTablesClient(p.conn)
-	for i := 0; i < 300 && p.alive(); i++ {
+	for i := 0; i < 900 && p.alive(); i++ {
 		ctx, cancel := context.WithTimeout(context.Background(), time.Second)
 		if ctxf != nil {
 			ctx = ctxf(ctx)
